@@ -10,6 +10,7 @@ import InvProxy.Model.WsCodec
 import InvProxy.Model.Sessions
 import InvProxy.Model.Relay
 import InvProxy.Model.ShimLife
+import InvProxy.Model.RespPath
 open InvProxy Driver
 
 /-- suite `backoff`: `target <n>` ↦ un-jittered target in ns;  `loop <pattern of 0/1>` ↦ retry counts slept with -/
@@ -323,11 +324,29 @@ def shimlifeStep (s : ShimLife.St) : List String → ShimLife.St × String
     | none => (s, "?")
   | _ => (s, "bad-op")
 
+def parseHOp (s : String) : Option RespPath.HOp :=
+  match s.splitOn ":" with
+  | ["S", k, v] => some (.setHeader (unhexD k) (unhexD v))
+  | ["A", k, v] => some (.addHeader (unhexD k) (unhexD v))
+  | ["D", k] => some (.delHeader (unhexD k))
+  | ["H", c] => some (.writeHeader (Int.ofNat (natD c)))
+  | ["W", d] => some (.write (unhexD d))
+  | _ => none
+
+/-- suite `srw`: `srw <ops>` ↦ status, header, body, trailer of the streamed response -/
+def srwStep (_ : Unit) : List String → Unit × String
+  | ["srw", ops] =>
+    let hops := if ops == "-" then [] else (ops.splitOn ";").filterMap parseHOp
+    let r := RespPath.output hops
+    ((), s!"{r.status} {canonHeader r.hdr} {hexOf r.body} {canonHeader r.trailer}")
+  | _ => ((), "bad-op")
+
 def main (args : List String) : IO UInt32 := do
   let stdin ← IO.getStdin
   let stdout ← IO.getStdout
   match args with
   | ["backoff"] => loop stdin stdout backoffStep (); return 0
+  | ["srw"] => loop stdin stdout srwStep (); return 0
   | ["shimlife"] => loop stdin stdout shimlifeStep (ShimLife.init 10); return 0
   | ["relay"] => loop stdin stdout relayStep Relay.init; return 0
   | ["sessions"] => loop stdin stdout sessionsStep { cap := 0, entries := [] }; return 0
